@@ -346,8 +346,8 @@ func c15GoReads(data []byte, refs []*RefRecord, want []LogRecord, hs int) *Reade
 		if !ok || err != nil {
 			return rd
 		}
+		// (the message too: since the repair of AddLog's trimming both writers normalise messages alike)
 		w := want[i]
-		w.Message = got.Message
 		VerifAssert(logEq(&got, &w), "c-written-log-fields")
 	}
 	var got LogRecord
